@@ -131,3 +131,100 @@ Proof.
   - eapply keepc_trans; [|apply run_noctl]; [csame|]. cbn [prog_of].
     unfold op_list, create_data_connection, process_command. nc.
 Qed.
+
+(* ... and, as long as the control connection stays open, its TLS state and its address family *)
+Definition keept (w w' : world) : Prop :=
+  w_open w' = true ->
+  w_open w = true /\ w_ssl w' = w_ssl w /\ w_tls_up w' = w_tls_up w /\ w_sess_id w' = w_sess_id w /\ w_cur6 w' = w_cur6 w.
+
+Lemma keept_refl w : keept w w.
+Proof. intro H. auto. Qed.
+Lemma keept_trans a b c : keept a b -> keept b c -> keept a c.
+Proof.
+  intros A B Hc. destruct (B Hc) as (Hb & B1 & B2 & B3 & B4). destruct (A Hb) as (Ha & A1 & A2 & A3 & A4).
+  split; [exact Ha|]. repeat split; congruence.
+Qed.
+Lemma keept_same a b : w_open b = w_open a -> w_ssl b = w_ssl a -> w_tls_up b = w_tls_up a -> w_sess_id b = w_sess_id a ->
+  w_cur6 b = w_cur6 a -> keept a b.
+Proof. intros H0 H1 H2 H3 H4 Hb. rewrite <- H0. auto. Qed.
+Ltac tsame := apply keept_same; reflexivity.
+
+Lemma keept_do_send w line w' : do_send w line = Some w' -> keept w w'.
+Proof.
+  unfold do_send. destruct (negb _); [discriminate|]. destruct (_ && _); [discriminate|].
+  destruct (w_peer_closed _); intro H; inversion H; subst; apply keept_same; try reflexivity;
+    unfold peer_react; destruct (w_cur _); reflexivity.
+Qed.
+
+Lemma keept_close_data w : keept w (close_data w).
+Proof.
+  unfold close_data. destruct (w_data w) as [d|]; [|apply keept_refl].
+  destruct (d_sock d), (d_acc d); tsame.
+Qed.
+
+Lemma keept_ctl_disconnect w : keept w (snd (ctl_disconnect w)).
+Proof. unfold ctl_disconnect. cbn [snd]. intro H. discriminate H. Qed.
+
+Lemma run_noctl_t p : noctl p -> forall w, keept w (snd (run p w)).
+Proof.
+  induction 1 as [v| |a k Hk IH|verb arg k Hk IH|line k Hk IH|a k Hk IH|k Hk IH|e k Hk IH|k Hk IH|t k Hk IH|k Hk IH|k Hk IH
+                 |k Hk IH|ip port k Hk IH|k Hk IH|k Hk IH|k Hk IH|g k Hk IH|k Hk IH|k Hk IH|k Hk IH|k Hk IH|body Hb IH];
+    intro w; cbn [run].
+  - apply keept_refl.
+  - apply keept_refl.
+  - destruct (has_crlf a); [apply keept_refl|apply IH].
+  - destruct arg as [a|].
+    + destruct (has_crlf a); [apply keept_refl|].
+      destruct (do_send w _) as [w'|] eqn:E; cbn [snd]; [eapply keept_trans; [eapply keept_do_send; eauto|apply IH]|tsame].
+    + destruct (do_send w _) as [w'|] eqn:E; cbn [snd]; [eapply keept_trans; [eapply keept_do_send; eauto|apply IH]|tsame].
+  - destruct (do_send w _) as [w'|] eqn:E; cbn [snd]; [eapply keept_trans; [eapply keept_do_send; eauto|apply IH]|tsame].
+  - destruct (match a with AdvEprt => _ | AdvPort => _ end) as [line|]; [|apply keept_refl].
+    destruct (do_send w _) as [w'|] eqn:E; cbn [snd]; [eapply keept_trans; [eapply keept_do_send; eauto|apply IH]|tsame].
+  - destruct (negb (w_open w)); [apply keept_refl|].
+    destruct (w_backlog w) as [|[t [r|]] rest]; [destruct (w_peer_closed w); apply keept_refl| |cbn [snd]; tsame].
+    destruct (code r =? 421).
+    + pose proof (keept_ctl_disconnect (emit (set_queues w rest (w_pending w)) [ERecv t r])) as K.
+      destruct (ctl_disconnect _) as [ok w2]. cbn [snd] in K.
+      assert (K0 : keept w w2) by (eapply keept_trans; [|exact K]; tsame).
+      destruct ok; cbn [snd]; [|exact K0].
+      eapply keept_trans; [exact K0|]. eapply keept_trans; [|apply IH]. tsame.
+    + eapply keept_trans; [|apply IH]. tsame.
+  - eapply keept_trans; [|apply IH]. tsame.
+  - apply IH.
+  - eapply keept_trans; [|apply IH]. tsame.
+  - apply IH.
+  - apply IH.
+  - eapply keept_trans; [|apply IH]. tsame.
+  - destruct (dp_reachable _); cbn [snd]; [eapply keept_trans; [|apply IH]|]; tsame.
+  - eapply keept_trans; [|apply IH]. tsame.
+  - destruct (dp_reachable _); cbn [snd]; [eapply keept_trans; [|apply IH]; tsame|apply keept_refl].
+  - destruct (dp_tls_ok _); cbn [snd]; [eapply keept_trans; [|apply IH]|]; tsame.
+  - destruct (w_data w) as [d|]; [|apply IH].
+    destruct (_ && _); cbn [snd]; [tsame|].
+    eapply keept_trans; [|apply IH]. eapply keept_trans; [|apply keept_close_data]. tsame.
+  - destruct (data_recv _ _ _ _ _) as [[ev r] cb']. destruct r; cbn [snd]; try (eapply keept_trans; [|apply IH]); tsame.
+  - destruct (data_recv _ _ _ _ _) as [[ev r] cb']. destruct r; cbn [snd]; try (eapply keept_trans; [|apply IH]); tsame.
+  - destruct (data_send _ _ _ _) as [[ev r] cb']. destruct r; cbn [snd]; try (eapply keept_trans; [|apply IH]); tsame.
+  - destruct (io_cb (w_io w)) as [answers|]; [|apply IH].
+    destruct (poll answers) as [a answers']. eapply keept_trans; [|apply IH]. tsame.
+  - destruct (run body w) as [o w1] eqn:R. cbn [snd].
+    pose proof (IH w) as X. rewrite R in X. cbn [snd] in X.
+    eapply keept_trans; [exact X|]. eapply keept_trans; [apply keept_close_data|tsame].
+Qed.
+
+
+Theorem step_keeps_tls_state a w :
+  match a with AConnect _ _ _ | ALogout | ADisconnect _ => True | _ => keept w (snd (step w a)) end.
+Proof.
+  destruct a; try exact I; unfold step; try tsame.
+  - eapply keept_trans; [|apply run_noctl_t]; [tsame|]. cbn [prog_of]. unfold op_login, process_login, process_command, process_raw. nc.
+  - eapply keept_trans; [|apply run_noctl_t]; [tsame|]. cbn [prog_of]. unfold op_simple, process_command. nc.
+  - eapply keept_trans; [|apply run_noctl_t]; [tsame|]. cbn [prog_of]. unfold op_set_type, process_command. nc.
+  - eapply keept_trans; [|apply run_noctl_t]; [tsame|]. cbn [prog_of]. unfold op_rename, process_command. nc.
+  - eapply keept_trans; [|apply run_noctl_t]; [tsame|]. cbn [prog_of].
+    unfold op_download, create_data_connection, finish_transfer, process_abort, process_command. nc.
+  - eapply keept_trans; [|apply run_noctl_t]; [tsame|]. cbn [prog_of].
+    unfold op_upload, create_data_connection, finish_transfer, process_abort, process_command. nc.
+  - eapply keept_trans; [|apply run_noctl_t]; [tsame|]. cbn [prog_of].
+    unfold op_list, create_data_connection, process_command. nc.
+Qed.
